@@ -178,6 +178,7 @@ Api(e, H2) == /\ phase = "ops" /\ nops < MaxOps
 \* nnx.state(g, *fs) / nnx.split(g, *fs) + merge in any order / clone
 OpState(fs) == Api([op |-> "state", fs |-> fs, groups |-> Groups(heap, fs), heap |-> heap], heap)
 VarIds(H) == {Leaves(H)[j].id : j \in 1..Len(Leaves(H))} \ {0}
+Modules(H) == {i \in Reachable(H) : IsGraph(H[i])}
 OpUpdate(S_) == /\ S_ # {} /\ S_ \subseteq VarIds(heap)
                 /\ LET L == Leaves(heap) IN
                    Api([op |-> "update", ids |-> S_, paths |-> {L[j].keys : j \in {i \in 1..Len(L) : L[i].id \in S_}},
@@ -188,7 +189,12 @@ OpUpdateMeta(S_) == /\ S_ # {} /\ S_ \subseteq VarIds(heap)
                             heap |-> UpdateMeta(heap, S_)], UpdateMeta(heap, S_))
 OpPop(f) == LET L == Leaves(heap)
                 S_ == {L[j].id : j \in {j \in 1..Len(L) : L[j].id # 0 /\ Match(f, L[j])}}
+                \* path-sensitive filters: selection is by the Variable's path, so only unaliased Variables are considered
+                \* (state() lists an aliased Variable under its first path only, pop() meets it under every path)
+                unaliased == \A id \in VarIds(heap) : Cardinality({<<p, j>> : p \in Parents(heap, id) \cap Reachable(heap), j \in 1..2} \cap
+                                                                   {<<p, j>> \in (1..Len(heap)) \X (1..2) : heap[p].s[j] = id}) = 1
             IN /\ f \in {"P", "Q", "V", "pa", "pb"} /\ S_ # {} /\ Poppable(heap, S_)
+               /\ (f \in {"pa", "pb"} => unaliased /\ \A id \in Modules(heap) : Cardinality(Parents(heap, id) \cap Reachable(heap)) <= 1)
                /\ Api([op |-> "pop", f |-> f, popped |-> {L[j].keys : j \in {j \in 1..Len(L) : L[j].id \in S_}},
                        heap |-> PopHeap(heap, S_)], PopHeap(heap, S_))
 OpClone == Api([op |-> "clone", heap |-> heap], heap)
